@@ -480,13 +480,13 @@ fn plans(prop: &str, tier: &str) -> Vec<Plan> {
                 kinds.push(StageKind::Tail(Lim::Static(n)));
             }
             let cfgs = single_stage_cfgs("C15", &kinds, 1, 3, &[16, 1], &[Policy::Eager], &fl);
-            out.push(Plan { name: "c15-static", cfgs, depth: if q { 3 } else { 4 } });
+            out.push(Plan { name: "c15-static", cfgs, depth: if q { 4 } else { 5 } });
             let mut cfgs = single_stage_cfgs("C15", &kinds, 1, 4, &[16], &[Policy::Manual], &fl);
             for c in &mut cfgs {
                 c.alphabet = Alphabet::Reduced;
                 c.max_len = 5;
             }
-            out.push(Plan { name: "c15-static-reduced-deep", cfgs, depth: if q { 4 } else { 6 } });
+            out.push(Plan { name: "c15-static-reduced-deep", cfgs, depth: if q { 5 } else { 7 } });
         }
         "C20" => {
             let mut kinds = Vec::new();
@@ -501,7 +501,7 @@ fn plans(prop: &str, tier: &str) -> Vec<Plan> {
                 c.drop_limit = true;
                 c.max_limit = 3;
             }
-            out.push(Plan { name: "c20-adp-single-reduced", cfgs, depth: if q { 3 } else { 4 } });
+            out.push(Plan { name: "c20-adp-single-reduced", cfgs, depth: if q { 4 } else { 5 } });
             let small = [
                 StageKind::Head(Lim::Static(2)),
                 StageKind::Tail(Lim::Dyn(LimSrc::Obs)),
@@ -518,7 +518,7 @@ fn plans(prop: &str, tier: &str) -> Vec<Plan> {
                     }
                 }
             }
-            out.push(Plan { name: "c20-adp-chains-reduced", cfgs, depth: if q { 3 } else { 4 } });
+            out.push(Plan { name: "c20-adp-chains-reduced", cfgs, depth: if q { 4 } else { 5 } });
         }
         _ => {}
     }
